@@ -1,8 +1,10 @@
 (* C17 - Archetype bookkeeping stays consistent at every quiescent point.  (partial)
    The property's list is evaluated directly on the implementation's snapshot after every
    top-level call by the check (independent audit) and the snapshot is compared with the model
-   state field by field.  Proved so far on the model: cached transitions after a type removal
-   (the part that was false on the pinned tree) and the listener-table characterisation. *)
+   state field by field.  Proved on the model: the storage/graph invariant WInv holds in every
+   world reachable through the top-level calls other than remove_component, for every handler
+   behaviour (last theorem); cached transitions after a type removal (the part that was false on
+   the pinned tree); the listener-table characterisation. *)
 From Coq Require Import List NArith Bool.
 Require Import EV.Base EV.Access EV.HList EV.World EV.ArchProofs.
 
@@ -50,3 +52,39 @@ Theorem c17_partial_archetype_move_keeps_storage_consistent :
                (forall c, abs w' e c = row_col da dvals c).
 Proof. exact move_entity_ok_core. Qed.
 Print Assumptions c17_partial_archetype_move_keeps_storage_consistent.
+
+Require Import EV.Loop EV.Graph EV.Effects EV.Reach.
+
+(* the graph part: transitions, by_components, slab free list, sorted component lists *)
+Theorem c17_partial_insert_transition_is_correct :
+  forall (w : world) (src : N) (sa : arch) (c : N),
+    StoreInv w -> GraphInv w -> arch_at w src = Some sa ->
+    exists d w1, traverse_insert w src c = ROk d w1 /\ StoreInv w1 /\ GraphInv w1 /\
+      (forall e k, abs w1 e k = abs w e k) /\ w_ents w1 = w_ents w /\
+      (exists sa1, arch_at w1 src = Some sa1 /\ a_comps sa1 = a_comps sa /\ a_rows sa1 = a_rows sa) /\
+      (In c (a_comps sa) -> d = src) /\
+      (~ In c (a_comps sa) -> d <> src /\ exists da, arch_at w1 d = Some da /\ a_comps da = sorted_insert c (a_comps sa)) /\
+      (forall cs ai, aby_lookup w cs = Some ai -> aby_lookup w1 cs = Some ai).
+Proof. exact traverse_insert_ok. Qed.
+Print Assumptions c17_partial_insert_transition_is_correct.
+
+(* one delivery and a whole flush keep the invariant, whatever the handlers do *)
+Theorem c17_flush_keeps_the_invariant :
+  forall (beh : hinfo -> logent -> N -> script) (n : nat) (q : list qitem) (w : world) tr (s' : wst) oc,
+    Loop.flush wst qitem (run_w beh) unwind_w n q (w, None) nil = Some (tr, s', oc) ->
+    WInv w -> GevKinds w -> WInv (fst s') /\ GevKinds (fst s').
+Proof. exact flush_WInv. Qed.
+Print Assumptions c17_flush_keeps_the_invariant.
+
+(* every world reachable from World::new by spawn / insert / remove / despawn / send / send_to /
+   add_handler / remove_handler / add_component / add and remove events, with any handler bodies,
+   any panic schedule and any fuel, is consistent:
+     RInv w  =  StoreInv w  (entity map <-> rows, one value per column, slot-map invariant)
+             /\ GraphInv w (slab chain, by_components <-> live archetypes, insert/remove
+                            transitions lead to the archetype differing by the label, sorted lists)
+             /\ the empty archetype is archetype 0  /\ global events carry no targeted meaning *)
+Theorem c17_every_reachable_world_is_consistent :
+  forall (beh : hinfo -> logent -> N -> script) (fuel p : N) (ops : list top),
+    RInv (fold_left (run_top beh) ops (world0 fuel p)).
+Proof. exact reachable_RInv. Qed.
+Print Assumptions c17_every_reachable_world_is_consistent.
